@@ -304,29 +304,29 @@ Definition compact_fields_okb1 (defs : list sdef) (d : sdef) (args : list src) :
     [u16].  scale-info registers [Vec<Box<Vec<u16>>>] (id 2) and [Vec<Vec<u16>>] (id 4),
     [Box<Vec<u16>>] (id 3, TypeId of [Vec<u16>]) and [Vec<u16>] (id 5, TypeId of [[u16]]),
     [VecDeque<Box<u8>>] (id 6, TypeId of [[Box<u8>]]) and [Vec<u8>] (id 8) separately. *)
-Definition ex7_defs : list sdef :=
+Definition id1_defs : list sdef :=
   [mk_sdef ["i"; "Ids"] [("T", false)]
            (SBStruct [mk_sfield (Some "a") (SVec (SBox (SVec (SParam 0)))) false true;
                       mk_sfield (Some "b") (SVec (SVec (SParam 0))) false true;
                       mk_sfield (Some "d") (SVecDeque (SBox (SPrimT PU8))) false true;
                       mk_sfield (Some "e") (SVec (SPrimT PU8)) false true;
                       mk_sfield (Some "r") (SParam 0) false true])].
-Definition ex7_fld (n : string) (ty : N) (tn : string) : field := mk_field (Some n) ty (Some tn) [].
-Definition ex7_ids (t a b d e : N) : ty :=
+Definition id1_fld (n : string) (ty : N) (tn : string) : field := mk_field (Some n) ty (Some tn) [].
+Definition id1_ids (t a b d e : N) : ty :=
   mk_ty ["i"; "Ids"] [mk_tparam "T" (Some t)]
-        (TDComposite [ex7_fld "a" a "Vec<Box<Vec<T>>>"; ex7_fld "b" b "Vec<Vec<T>>";
-                      ex7_fld "d" d "VecDeque<Box<u8>>"; ex7_fld "e" e "Vec<u8>"; ex7_fld "r" t "T"]) [].
-Definition ex7_seq (e : N) : ty := mk_ty [] [] (TDSequence e) [].
-Definition ex7_reg : registry :=
-  [(0, ex7_ids 1 2 4 6 8); (1, mk_ty [] [] (TDPrimitive PU16) []);
-   (2, ex7_seq 3); (3, ex7_seq 1); (4, ex7_seq 5); (5, ex7_seq 1);
-   (6, ex7_seq 7); (7, mk_ty [] [] (TDPrimitive PU8) []); (8, ex7_seq 7)]%N.
+        (TDComposite [id1_fld "a" a "Vec<Box<Vec<T>>>"; id1_fld "b" b "Vec<Vec<T>>";
+                      id1_fld "d" d "VecDeque<Box<u8>>"; id1_fld "e" e "Vec<u8>"; id1_fld "r" t "T"]) [].
+Definition id1_seq (e : N) : ty := mk_ty [] [] (TDSequence e) [].
+Definition id1_reg : registry :=
+  [(0, id1_ids 1 2 4 6 8); (1, mk_ty [] [] (TDPrimitive PU16) []);
+   (2, id1_seq 3); (3, id1_seq 1); (4, id1_seq 5); (5, id1_seq 1);
+   (6, id1_seq 7); (7, mk_ty [] [] (TDPrimitive PU8) []); (8, id1_seq 7)]%N.
 (** the labels as the interner records them (first registration, as written) *)
-Definition ex7_raw_labels : list (option src) :=
+Definition id1_raw_labels : list (option src) :=
   [Some (SApp 0 [SPrimT PU16]); Some (SPrimT PU16);
    Some (SVec (SBox (SVec (SPrimT PU16)))); Some (SBox (SVec (SPrimT PU16)));
    Some (SVec (SVec (SPrimT PU16))); Some (SVec (SPrimT PU16));
    Some (SVecDeque (SBox (SPrimT PU8))); Some (SBox (SPrimT PU8)); Some (SVec (SPrimT PU8))].
-Definition ex7_labels : list (option src) := ident1_labels ex7_raw_labels.
-Definition ex7_canon_labels : list (option src) :=
-  map (fun o => match o with Some c => Some (canon c) | None => None end) ex7_raw_labels.
+Definition id1_labels : list (option src) := ident1_labels id1_raw_labels.
+Definition id1_canon_labels : list (option src) :=
+  map (fun o => match o with Some c => Some (canon c) | None => None end) id1_raw_labels.
